@@ -78,7 +78,16 @@ func (f *FnVC) call(v ssa.Value, c *ssa.CallCommon, ins ssa.Instruction) {
 			fv := f.val(c.Value)
 			f.oblige("panic.nil", "call of nil function "+f.srcText(c.Value), "(not (= "+fv.T+" 0))", pos)
 			name = "func value " + f.srcText(c.Value)
-			if nt, ok := c.Value.Type().(*types.Named); ok {
+			if ld, ok := c.Value.(*ssa.UnOp); ok && ld.Op == token.MUL {
+				if fa, ok := ld.X.(*ssa.FieldAddr); ok {
+					if nt, ok := fa.X.Type().Underlying().(*types.Pointer).Elem().(*types.Named); ok && nt.Obj().Pkg() != nil {
+						st := nt.Underlying().(*types.Struct)
+						name = "func field " + nt.Obj().Name() + "." + st.Field(fa.Field).Name()
+						ct = f.g.findExternOrRepo(nt.Obj().Pkg().Path() + ".field:" + nt.Obj().Name() + "." + st.Field(fa.Field).Name())
+					}
+				}
+			}
+			if nt, ok := c.Value.Type().(*types.Named); ok && ct == nil {
 				name = "functype " + typeKey(nt)
 				if nt.Obj().Pkg() != nil {
 					ct = f.g.findExternOrRepo(nt.Obj().Pkg().Path() + ".type:" + nt.Obj().Name())
@@ -225,6 +234,23 @@ func (f *FnVC) applyContract(ct *Contract, callee *ssa.Function, sig *types.Sign
 		for i, p := range callee.Params {
 			env.vars[p.Name()] = args[i]
 		}
+	} else if callee != nil && !ct.Extern && callee.Signature != nil {
+		// body not loaded (package is a dependency): parameter names from the signature
+		var names []string
+		if rv := callee.Signature.Recv(); rv != nil {
+			names = append(names, rv.Name())
+		}
+		ps := callee.Signature.Params()
+		for i := 0; i < ps.Len(); i++ {
+			names = append(names, ps.At(i).Name())
+		}
+		if len(names) == len(args) {
+			for i, n := range names {
+				if n != "" && n != "_" {
+					env.vars[n] = args[i]
+				}
+			}
+		}
 	}
 	for i := range ct.Params {
 		if i < len(args) && ct.Params[i].Name != "" {
@@ -253,6 +279,9 @@ func (f *FnVC) applyContract(ct *Contract, callee *ssa.Function, sig *types.Sign
 	pre := f.st
 	f.st = f.st.child()
 	// havoc the assigns set
+	if ct.AssignsAll {
+		f.havocAll()
+	}
 	for _, a := range ct.Assigns {
 		for _, tg := range f.assignTargets(env, a.E) {
 			f.havocTarget(tg)
@@ -271,6 +300,7 @@ func (f *FnVC) applyContract(ct *Contract, callee *ssa.Function, sig *types.Sign
 	f.bumpNextref()
 	var given []TV
 	out := f.bindResults(v, sig, given, nil)
+	defer func() {}()
 	post := f.baseEnv()
 	post.pkg = env.pkg
 	post.lazy = nil
@@ -302,11 +332,45 @@ func (f *FnVC) applyContract(ct *Contract, callee *ssa.Function, sig *types.Sign
 		}
 		f.gfact(sAnd("(>= "+r+" "+pre.get("$nextref")+")", "(< "+r+" "+f.st.get("$nextref")+")", "(> "+r+" 0)"))
 	}
+	// ghost updates: evaluated with pre-state ghosts (old) and the results; applied to the post state
+	for _, sc := range ct.Sets {
+		f.applySet(post, pre, sc)
+	}
 	for _, e := range ct.Ensures {
 		if id, ok := e.E.(SIdent); ok && id.Name == "nopanic" {
 			continue
 		}
 		f.gfact(f.trBool(post, e.E))
+	}
+}
+
+// applySet performs a ghost update  g = e  or  g[i] = e  on the current state.
+func (f *FnVC) applySet(env *Env, pre *State, sc SetClause) {
+	val := f.trExpr(env, sc.Value)
+	switch tg := sc.Target.(type) {
+	case SIdent:
+		h, _, ok := f.ghostHeap(tg.Name)
+		if !ok {
+			sfail("sets: %s is not a ghost variable", tg.Name)
+		}
+		c := f.freshConst("gh_"+tg.Name, f.heapSort[h])
+		f.gfact(sEq(c, val.T))
+		f.setHeap(h, c)
+		env.st = f.st
+	case SIndex:
+		id, ok := tg.X.(SIdent)
+		if !ok {
+			sfail("sets: unsupported target %s", sexprString(sc.Target))
+		}
+		h, _, ok := f.ghostHeap(id.Name)
+		if !ok {
+			sfail("sets: %s is not a ghost variable", id.Name)
+		}
+		idx := f.trExpr(env, tg.I)
+		f.setHeap(h, sStore(f.st.get(h), idx.T, val.T))
+		env.st = f.st
+	default:
+		sfail("sets: unsupported target %s", sexprString(sc.Target))
 	}
 }
 
@@ -335,6 +399,27 @@ func (f *FnVC) assignTargets(env *Env, e SExpr) []target {
 		}
 		sfail("assigns: unknown location %s", x.Name)
 	case SField:
+		// pkg.Type.field (whole heap)
+		if q, ok := x.X.(SField); ok {
+			if pk, ok := q.X.(SIdent); ok {
+				if _, isVar := f.lookupIdent(env, pk.Name); !isVar {
+					if ty := f.g.resolveType(pk.Name+"."+q.Name, env.pkg, f.pkgPath()); ty != nil {
+						if st, ok := ty.Underlying().(*types.Struct); ok {
+							var out []target
+							for i := 0; i < st.NumFields(); i++ {
+								if x.Name == "*" || st.Field(i).Name() == x.Name {
+									h, _ := f.fieldHeap(ty, i)
+									out = append(out, target{heap: h, whole: true})
+								}
+							}
+							if len(out) > 0 {
+								return out
+							}
+						}
+					}
+				}
+			}
+		}
 		// Type.field  (whole heap)   |  expr.field  |  expr.*
 		if id, ok := x.X.(SIdent); ok {
 			if _, isVar := f.lookupIdent(env, id.Name); !isVar {
@@ -409,6 +494,15 @@ func (f *FnVC) assignTargets(env *Env, e SExpr) []target {
 			pt := a.Ty.Underlying().(*types.Pointer)
 			return []target{{heap: f.cellHeap(pt.Elem()), ref: a.T}}
 		}
+		if id, ok := x.Fun.(SIdent); ok && id.Name == "mapsOf" {
+			ty := f.g.resolveType(sexprString(x.Args[0]), env.pkg, f.pkgPath())
+			mt, ok := ty.(*types.Map)
+			if ty == nil || !ok {
+				sfail("assigns: mapsOf needs a map type")
+			}
+			mv, md := f.mapHeaps(mt)
+			return []target{{heap: mv, whole: true}, {heap: md, whole: true}}
+		}
 		if id, ok := x.Fun.(SIdent); ok && id.Name == "elems" {
 			// elems(T): whole element heap of type T
 			ty := f.g.resolveType(sexprString(x.Args[0]), env.pkg, f.pkgPath())
@@ -453,6 +547,20 @@ func (f *FnVC) frameTargets() (wholeOK map[string]bool, allowed map[string][]tar
 			}
 		}
 	}
+	for _, sc := range f.c.Sets {
+		var name string
+		switch tg := sc.Target.(type) {
+		case SIdent:
+			name = tg.Name
+		case SIndex:
+			if id, ok := tg.X.(SIdent); ok {
+				name = id.Name
+			}
+		}
+		if h, _, ok := f.ghostHeap(name); ok {
+			wholeOK[h] = true
+		}
+	}
 	f.cur = saved
 	return
 }
@@ -475,7 +583,7 @@ func (f *FnVC) frameCond(h, H string, allowed []target, nr0 string) string {
 }
 
 func (f *FnVC) frameObligations() {
-	if f.c == nil {
+	if f.c == nil || f.c.AssignsAll {
 		return
 	}
 	written := map[string]bool{}
@@ -519,7 +627,7 @@ func (f *FnVC) builtin(v ssa.Value, b *ssa.Builtin, c *ssa.CallCommon, pos token
 			case *types.Map:
 				_, md := f.mapHeaps(u)
 				tv := f.val(v)
-				f.fact(sEq(tv.T, sIte("(= "+a.T+" 0)", "0", "(mapcard "+sSel(f.st.get(md), a.T)+")")))
+				f.fact(sEq(tv.T, sIte("(= "+a.T+" 0)", "0", f.mapcard(sSel(f.st.get(md), a.T), md))))
 				f.fact("(>= " + tv.T + " 0)")
 			case *types.Pointer:
 				if at, ok := u.Elem().Underlying().(*types.Array); ok {
